@@ -104,6 +104,13 @@ def german_accounts():
             break
     out["88"] = pick88
     out["88_bank"] = c14.bank_for_method("88")
+    # every other implemented method: the C14 operand menu (remainder class x verdict x rule branch)
+    out["all_methods"] = {}
+    for m in c14.c07.lib_methods():
+        if m in ("16", "02", "25", "88"):
+            continue
+        menu = c14.method_menu(m, limit=1500, max_entries=6)
+        out["all_methods"][m] = {f"{rc}{'a' if acc else 'r'}-{ft}": a for (rc, acc, ft), a in menu.items()}
     # a bank code whose first registry entry is not the primary one (several entries, names differ)
     for (cc, code), es in sorted(lookup.by_key().items()):
         if cc == "DE" and len(es) > 1 and not es[0].get("primary") and any(e.get("primary") for e in es) \
@@ -148,6 +155,9 @@ def build_alphabet(ga: dict, tier: str = "thorough"):
                 bban = bank + acct
                 text = "DE" + ri.check_digits("DE", bban) + bban
                 add(f"iban-de-method{m}-{rc}", (lambda t=text: I(t, validate_bban=True)), group="m" + m)
+    for m, menu in sorted(ga.get("all_methods", {}).items()):
+        for key, acct in sorted(menu.items()):
+            add(f"method{m}-{key}", (lambda m=m, a=acct: alg["DE:" + m].validate([a], "")), group="g" + m)
     add("method00", lambda: alg["DE:00"].validate(["9290701000"], ""), group="m00-24")
     add("method00-b", lambda: alg["DE:00"].validate(["0000000018"], ""), group="m00-24")
     add("method24", lambda: alg["DE:24"].validate(["0000138301"], ""), group="m00-24")
@@ -280,11 +290,20 @@ def to_tuple(x):
     return tuple(to_tuple(i) for i in x) if isinstance(x, list) else x
 
 
+def _fresh_in_fork(i):
+    return observe(_CTX["ops"][i][1])[0]
+
+
 def fresh_outcomes(ga, n_ops, tier="thorough"):
     env = dict(os.environ)
     procs = []
     out = [None] * n_ops
-    pending = list(range(n_ops))
+    # the per-method operations take their reference outcome from a fork of the pristine process (a
+    # first call after import all the same); everything else from a brand-new interpreter
+    forked = [i for i in range(n_ops) if _CTX["ops"][i][3].startswith("g")]
+    for i in forked:
+        out[i] = states.in_child(_fresh_in_fork, i)
+    pending = [i for i in range(n_ops) if i not in set(forked)]
     running = []
     while pending or running:
         while pending and len(running) < par.NPROC:
@@ -342,8 +361,12 @@ def main(tier: str) -> int:
         seen_total, transitions, edges, depth_max = {}, 0, 0, 0
         level_sizes, per_group = [], {}
         closure_ok = True
+        full_groups = set(groups) if tier == "thorough" else {g for g in groups if g.startswith("m")}
         for g in groups:
-            g_ops = [i for i, o in enumerate(ops) if o[3] in ("general", g)]
+            if g in full_groups:
+                g_ops = [i for i, o in enumerate(ops) if o[3] in ("general", g)]
+            else:  # quick: the other method objects are searched with their own operations only
+                g_ops = [i for i, o in enumerate(ops) if o[3] == g]
             if g != groups[0]:
                 # general x general transitions from the initial state were covered by the first group
                 pass
@@ -389,17 +412,21 @@ def main(tier: str) -> int:
         closure_complete = not frontier
         # ---------------- merge-free sequences
         core = [i for i, o in enumerate(ops) if o[2]]
-        same_group = [(a, b) for a in all_ops for b in all_ops
+        if tier == "quick":
+            all_ops = [i for i in all_ops if not ops[i][3].startswith("g")]
+        every = list(range(len(ops)))
+        same_group = [(a, b) for a in every for b in every
                       if ops[a][3] == ops[b][3] and ops[a][3] != "general"]
         if tier == "thorough":
             seqs = [s for s in itertools.product(all_ops, repeat=2)]
             seqs += [s for s in itertools.product(core, repeat=3)]
             seqs += [(a, b, a) for a, b in same_group if a != b]
         else:
+            main_group = [(a, b) for a, b in same_group if ops[a][3].startswith("m")]
             seqs = sorted(set(itertools.product(all_ops, core)) | set(itertools.product(core, all_ops))
-                          | set(same_group))
+                          | set(main_group))
             seqs += [s for s in itertools.product(core[:6], repeat=3)]
-            seqs += [(a, b, a) for a, b in same_group if a != b]
+            seqs += [(a, b, a) for a, b in main_group if a != b]
         chunks = [seqs[i:i + 25] for i in range(0, len(seqs), 25)]
         nseq = 0
         for res in pool.imap_unordered(sequence_task, chunks, chunksize=1):
